@@ -123,6 +123,10 @@ View(buf) ==
                   sig    |-> Drop(buf, s.next),
                   ar     |-> AR(buf)]
 
+(* Verification is a FUNCTION of the received octets, the KEY and the time: it *)
+(* has no effect on the octets (the caller's buffer is the same after the call, *)
+(* whatever is returned), so a sequence of verifications of one buffer is       *)
+(* judged call by call (Trace_Sig0: field `unchanged', "after-" events).        *)
 LE4(a, b) == a = b \/ LexLess(a, b)                   \* unsigned 32-bit values as 4 octets
 (* sigvalid: the primitive accepted view.sig over view.signed under the key    *)
 Accept0(v, keyowner, now, sigvalid) ==
